@@ -679,11 +679,23 @@ func C19(c *Ctx) {
 		if sc == nil {
 			return true
 		}
-		switch sc.String() {
+		name := sc.String()
+		var a, b2 *ir.Expr
+		switch name {
+		case "math/big.NewRat":
+			a, b2 = w.ExprOf(call.Common().Args[0]), w.ExprOf(call.Common().Args[1])
+		case "(*math/big.Rat).SetInt64":
+			// new(big.Rat).SetInt64(n) is n/1
+			name = "math/big.NewRat"
+			a, b2 = w.ExprOf(call.Common().Args[1]), &ir.Expr{Op: "const", Name: "1"}
+		case "(*math/big.Rat).SetFrac64":
+			name = "math/big.NewRat"
+			a, b2 = w.ExprOf(call.Common().Args[1]), w.ExprOf(call.Common().Args[2])
+		}
+		switch name {
 		case "math/big.NewRat":
 			seenSite[in] = true
 			nr++
-			a, b2 := w.ExprOf(call.Common().Args[0]), w.ExprOf(call.Common().Args[1])
 			for a.Op == "conv" {
 				a = a.Args[0]
 			}
@@ -703,7 +715,50 @@ func C19(c *Ctx) {
 		case "(*math/big.Rat).FloatString":
 			seenSite[in] = true
 			pe := w.ExprOf(call.Common().Args[1])
-			r.Require(pe.Name == "9", "A5.constants", "precision", pos(c, in), "FUND amounts are printed with nine decimals (log10 of UndPow)", pe.Name)
+			okP := pe.Name == "9"
+			if !okP && pe.Op == "phi" {
+				// the places computed by a small helper that was looked into (nine for FUND, none for nund), the printing with
+				// places standing where the same computation did not give zero
+				nine, other := false, false
+				for _, alt := range pe.Alts() {
+					switch {
+					case alt.Op == "const" && alt.Name == "9":
+						nine = true
+					case alt.Op == "const" && alt.Name == "0":
+					default:
+						other = true
+					}
+				}
+				text := pe.String()
+				isZero := func(y *ir.Expr) bool { return y.Op == "const" && y.Name == "0" }
+				same := func(x *ir.Expr) bool { return x.String() == text }
+				if nine && !other && w.Guarded(in.Parent(), in, func(p ir.Pred) bool { return cmpIs(p, "!=", same, isZero) || cmpIs(p, ">", same, isZero) }, 0) {
+					okP = true
+					pe = &ir.Expr{Op: "const", Name: "9"}
+				}
+			}
+			if !okP && pe.Op == "call" && pe.Callee != nil {
+				// the number of places chosen by a helper (nine for FUND, none for nund): the printing with places stands
+				// where the helper's answer is not zero, and its only other answer is nine
+				raw := pe
+				nine, other := false, false
+				for _, alt := range w.Expand(pe, 3).Alts() {
+					switch {
+					case alt.Op == "const" && alt.Name == "9":
+						nine = true
+					case alt.Op == "const" && alt.Name == "0":
+					default:
+						other = true
+					}
+				}
+				isZero := func(y *ir.Expr) bool { return y.Op == "const" && y.Name == "0" }
+				sameCall := func(x *ir.Expr) bool { return x.Op == "call" && x.Callee == raw.Callee }
+				okP = nine && !other && w.Guarded(in.Parent(), in, func(p ir.Pred) bool { return cmpIs(p, "!=", sameCall, isZero) || cmpIs(p, ">", sameCall, isZero) }, 0)
+				if okP {
+					pe = &ir.Expr{Op: "const", Name: "9"}
+				}
+			}
+			r.Require(okP, "A5.constants", "precision", pos(c, in), "FUND amounts are printed with nine decimals (log10 of UndPow)", pe.String())
 		}
 		return true
 	})
@@ -763,6 +818,11 @@ func C19(c *Ctx) {
 				break
 			}
 		}
+		// whatever the command prints on success comes out of the conversion: no successful return goes round the call (a
+		// shortcut that answers from a parse of its own — "zero is zero" — answers without the exact arithmetic)
+		site := ed.Site
+		round := w.FlatMustPass(ed.From, func(in ssa.Instruction) bool { return in == site }, nil)
+		r.Require(len(round) == 0, "A7.cli-amount", fn(ed.From)+"|must-convert", pos(c, ed.Site), "every successful run of the convert command goes through the conversion function", fmt.Sprintf("%d successful return(s) do not pass the conversion call", len(round)))
 		r.Require(okAmt, "A7.cli-amount", fn(ed.From), pos(c, ed.Site), "the convert command passes the amount argument to the conversion as typed (at most surrounding space and non-numeric separators removed: no slicing, no re-formatting through a number type)", "amount argument: "+amt.String())
 	}
 	r.Floor("convert command call sites", ncli, 1)
